@@ -120,7 +120,7 @@ func c15Run(w *kernel.Worker, j *c15Job, rep *kernel.Report) (*c15Result, error)
 			if d.Timeout {
 				return &c15Result{"C15/no-answer", "no answer within the deadline"}, nil
 			}
-			return &c15Result{"C15/worker-died/" + d.Frame, d.Exit + "\n" + tailStr(d.Stderr, 1500)}, nil
+			return &c15Result{"C15/worker-died/" + d.Frame, d.Exit + "\n" + trunc(d.Stderr, 3500)}, nil
 		}
 		return nil, err
 	}
